@@ -386,7 +386,7 @@ def spec_mutant(chk, name, module, cfg, edits, workers=8, timeout=900):
     cmd = ["tlc", "-workers", str(workers), "-metadir", meta, "-cleanup", "-noGenerateSpecTE",
            "-config", os.path.join(d, cfg), os.path.join(d, module)]
     rc, out = sh(cmd, timeout=timeout, cwd=d)
-    refuted = bool(re.search(r"is violated|properties were violated", out))
+    refuted = bool(re.search(r"is violated|properties were violated|Assumption .* is false", out))
     shutil.rmtree(d, ignore_errors=True)
     chk.parts.setdefault("spec_mutants", []).append({"mutant": name, "cfg": cfg, "refuted": refuted})
     if not refuted:
